@@ -32,6 +32,16 @@ Two oracle layers (DESIGN section 4, C16):
     ``Monitors.judge_units`` through the independent unit table of rv/oracle/peakdefs.py: a refusal is always
     fine; a returned result must be the physical value of the definition (everything brought to SI) in a unit of
     the implied dimension, and must not exist at all when the terms have no common dimension.
+(e) the estimate under every way to carry prefixes (``guess_case``): a prefix on a leaf, on a composite (given to
+    the constructor or attached with with_prefix), on a composite nested in another composite (left / right, the
+    outer one with or without its own prefix), related or empty leaf prefixes inside, a prefixed composite given
+    another / the empty prefix -- each x every way the data name the independent variable (coord not given, the
+    dimension-coordinate by name, another coordinate of the data, data with variances).  ``guess`` must return
+    exactly the documented names (= ``param_names`` = what ``__call__`` accepts; judged on the answer of every
+    implementation of ``guess``, base class and overrides), the values must be bitwise those of the same tree with
+    plain prefixes under renaming, ``model(x, **model.guess(data))`` must be accepted and have the unit of the
+    data; the same for ``param_bounds`` (names are parameters, content independent of the prefixes).  Whatever
+    the package returns is judged as it is: an answer of another shape is a violation, never a harness error.
 """
 
 from __future__ import annotations
@@ -65,7 +75,13 @@ RULE = (
     'the highest coefficient, the result unit of one part) is given in another scale of the same quantity (another '
     'base unit of that dimension, or percent) and in a unit of another dimension (x or / K, s, m, kg; the unit of '
     'the neighbouring coefficient; all coefficients in the unit of a0); the polynomial additionally with pure '
-    'numbers (percent next to dimensionless)'
+    'numbers (percent next to dimensionless). In every shard one guess case: one data set (irregular abscissae, peak on a '
+    'sloping background, 3 coordinates in different units, with and without variances) and, for leaves and for trees '
+    'of 2 and 3 leaves (nested left / right), every placement of non-empty prefixes (leaf; composite via constructor / '
+    'via with_prefix; nested composite with / without a prefix on the outer one; un-prefixed composite in a prefixed '
+    'one; related / empty leaf prefixes inside; re-prefixed and un-prefixed again) x coord not given / the '
+    'dimension-coordinate by name / another coordinate / data with variances: guess, param_bounds, param_names '
+    'against the documented naming and against the same tree with plain prefixes'
 )
 ASSUMPTIONS = [
     'numpy long double (x87 80 bit) evaluates the closed forms with error << 64 eps (mpmath self-test per run)',
@@ -91,6 +107,16 @@ ASSUMPTIONS = [
     'model\'s own scale entry must be refused (any value returned would come from a foreign name); dicts '
     'with the own scale but other own names missing are not judged',
     '400-node Gauss-Legendre in u reproduces the amplitude of the closed forms to < 1e-12 (self-test per run)',
+    'the values guess returns are not specified ("roughly estimate"): they are only compared between prefix variants '
+    'of one tree (bitwise under the documented renaming prefix + name, composite prefix in front); the names are: '
+    'exactly the documented names, which are what param_names reports and __call__ accepts',
+    'guess(data, coord=c) estimates from data.coords[c] and data.data (docstring: "a chosen coord is the independent '
+    'variable; if not given, data.dim is used"): not giving coord equals naming the dimension-coordinate, and naming '
+    'another coordinate equals handing over the same numbers as the dimension-coordinate',
+    'for data without variances model(x, **model.guess(data)) is a complete parameter set in consistent units: it is '
+    'accepted and the result has the unit of the data; estimates from data with variances carry variances (scipp '
+    'refuses to broadcast them) and are not fed back',
+    'param_bounds maps parameter names of the model to (lower, upper); omitted names are unbounded',
 ]
 TECHNIQUE = ('runtime monitors (sys.monitoring) on Model.__call__, every _call, fwhm, guess, param_bounds, '
              'with_prefix and the constructors; long-double closed forms at the exact abscissae + analytic '
@@ -322,6 +348,23 @@ def si_expected(spec, x: sc.Variable, params: dict):
     return {'relation': 'consistent', 'value': v, 'tol': t, 'dim': pk.dim_add(da, dx, -1), 'why': []}
 
 
+def _sub_calls(ev):
+    """The evaluations of OTHER models observed inside the evaluation ``ev`` of a model: the nearest
+    ``__call__`` frames below it that belong to another object (frames of the model itself -- an override
+    that defers to the base implementation, its ``_call`` -- are looked through)."""
+    me = ev.args.get('self')
+    out = []
+
+    def walk(node):
+        for c in node.children:
+            if c.name == 'call' and c.args.get('self') is not me:
+                out.append(c)
+            else:
+                walk(c)
+    walk(ev)
+    return out
+
+
 def _hex(v):
     try:
         return float(v).hex()
@@ -420,6 +463,11 @@ class Monitors:
             self.ctx.violation('with_prefix_not_a_copy', 'with_prefix returned the model itself',
                                {'spec': spec_str(spec)}, where='with_prefix')
             return
+        if type(ev.result) is not type(ev.args['self']):
+            self.ctx.violation('with_prefix_type', f'with_prefix of {spec_str(spec)} returned '
+                               f'{type(ev.result).__name__}, expected a copy of the model',
+                               {'spec': spec_str(spec), 'prefix': ev.args.get('prefix')}, where='with_prefix')
+            return
         new = dict(spec)
         new['prefix'] = ev.args['prefix']
         self._register(ev.result, new)
@@ -429,6 +477,9 @@ class Monitors:
     def on_call(self, ev):
         if ev.depth != 0:
             return  # nested calls are judged from their composite parent
+        if not {'self', 'x', 'params'} <= set(ev.args):
+            self.ctx.count('call_with_other_signature_not_judged')
+            return
         try:
             self.judge_call(ev, None)
         except OutOfDomain as e:
@@ -597,12 +648,7 @@ class Monitors:
     def _judge_parts_of_refused(self, ev, spec):
         """Sub-calls of a composite that was not judged through the exact closed form (it refused, or its
         parts are in different units): every part that was reached is judged on its own."""
-        subs = []
-        for c in ev.children:
-            if c.name == 'call':
-                subs.append(c)
-            else:
-                subs.extend(cc for cc in c.children if cc.name == 'call')
+        subs = _sub_calls(ev)
         for part in (spec['left'], spec['right']):
             names = spec_names(part)
             for c in subs:
@@ -645,12 +691,7 @@ class Monitors:
     def _judge_parts(self, ev, spec, params, got, case):
         """composite = left + right on the observed sub-calls; recurse into the parts."""
         ctx = self.ctx
-        subs = []
-        for c in ev.children:
-            if c.name == 'call':
-                subs.append(c)
-            else:
-                subs.extend(cc for cc in c.children if cc.name == 'call')
+        subs = _sub_calls(ev)
         ln, rn = spec_names(spec['left']), spec_names(spec['right'])
         p = spec['prefix']
         left = [c for c in subs if set(c.args['params']) == ln]
@@ -664,12 +705,18 @@ class Monitors:
         le, re_ = left[0], right[0]
         for sub in (le, re_):
             for k, v in sub.args['params'].items():
-                if not sc.identical(v, params[p + k]):
+                w = params[p + k]
+                same = v is w or (isinstance(v, sc.Variable) and isinstance(w, sc.Variable) and sc.identical(v, w))
+                if not same:
                     ctx.violation('composite_routing',
-                                  f'{spec_str(spec)}: part received {k}={v.value!r}, composite was given '
-                                  f'{p + k}={params[p + k].value!r}', case, model='comp', mechanism='values')
+                                  f'{spec_str(spec)}: part received {k}={getattr(v, "value", v)!r}, composite '
+                                  f'was given {p + k}={getattr(w, "value", w)!r}', case, model='comp',
+                                  mechanism='values')
                     return
-        if le.exc is None and re_.exc is None:
+        if (le.exc is None and re_.exc is None and isinstance(le.result, sc.Variable)
+                and isinstance(re_.result, sc.Variable) and le.result.shape == re_.result.shape
+                and tuple(le.result.shape) == tuple(got.shape)):
+            # (a part that returned something else is reported by its own judge_call below)
             lv = np.asarray(le.result.values, dtype=np.float64).astype(LD)
             rv = np.asarray(re_.result.values, dtype=np.float64).astype(LD)
             s = lv + rv
@@ -805,17 +852,19 @@ class Monitors:
         return h
 
     def on_guess(self, ev):
+        """``guess`` of any model (the public method of the base class and every override of it): the names
+        it returns are exactly the documented names of the model (prefix + name, a composite's prefix in
+        front of the names of its parts) -- the ones ``__call__`` accepts."""
         if ev.depth != 0 or ev.exc is not None:
             return
         spec = self.spec_of(ev.args['self'])
         if spec is None:
             return
         self.ctx.event('guess')
-        got = set(ev.result)
-        if got != set(spec_names(spec)):
-            self.ctx.violation('guess_names', f'{spec_str(spec)}.guess returned names {sorted(got)}, the model '
-                               f'accepts {sorted(spec_names(spec))}', {'spec': spec_str(spec)},
-                               model=spec['kind'], where='guess')
+        coord = ev.args.get('coord')
+        self.ctx.event('guess.coord=None' if coord is None else 'guess.coord=name')
+        case = {'spec': spec_str(spec), 'coord': coord}
+        judge_guess_names(self.ctx, spec, ev.result, case, 'monitor')
 
     def on_bounds(self, ev):
         if ev.depth != 0 or ev.exc is not None:
@@ -824,11 +873,7 @@ class Monitors:
         if spec is None:
             return
         self.ctx.event('param_bounds')
-        got = set(ev.result)
-        if not got <= set(spec_names(spec)):
-            self.ctx.violation('bounds_names', f'{spec_str(spec)}.param_bounds has names {sorted(got)} that are '
-                               f'not parameters {sorted(spec_names(spec))}', {'spec': spec_str(spec)},
-                               model=spec['kind'], where='param_bounds')
+        judge_bounds_names(self.ctx, spec, ev.result, {'spec': spec_str(spec)}, 'monitor')
 
     def install(self, tr, M):
         tr.watch(M.Model.__call__, 'call', on_return=self.on_call)
@@ -849,6 +894,20 @@ class Monitors:
         tr.watch(M.Model.fwhm, 'fwhm.base', on_return=self.on_fwhm(None))
         tr.watch(M.Model.guess, 'guess', on_return=self.on_guess)
         tr.watch(M.Model.param_bounds, 'param_bounds', on_return=self.on_bounds)
+        # the public methods are judged wherever they are implemented: an override in a model class is
+        # observed under the same name as the implementation of the base class (depth 0 = the outermost)
+        public = {'__call__': ('call', self.on_call), 'guess': ('guess', self.on_guess),
+                  'param_bounds': ('param_bounds', self.on_bounds), 'with_prefix': ('with_prefix',
+                                                                                    self.on_with_prefix)}
+        for cls in vars(M).values():
+            if isinstance(cls, type) and issubclass(cls, M.Model) and cls is not M.Model:
+                for attr, (name, handler) in public.items():
+                    if attr in vars(cls):
+                        try:
+                            tr.watch(vars(cls)[attr], name, on_return=handler)
+                            self.ctx.count(f'override_observed:{cls.__name__}.{attr}')
+                        except TypeError:
+                            self.ctx.count(f'override_not_observable:{cls.__name__}.{attr}')
 
 
 # -------------------------------------------------------------- generators ---
@@ -976,6 +1035,26 @@ def safe_call(model, x, params):
         return None
 
 
+def data_of(y, xs):
+    """Data array of a curve the model returned over the abscissae xs; None when the model did not return a
+    curve over xs (reported by the __call__ monitor)."""
+    if not isinstance(y, sc.Variable) or tuple(y.dims) != tuple(xs.dims) or tuple(y.shape) != tuple(xs.shape):
+        return None
+    return sc.DataArray(y, coords={xs.dim: xs})
+
+
+def values_of(f, n):
+    """float64 values of a result the identities can use: a Variable with n finite-or-not numbers; anything
+    else (reported as result_type / wrong_shape by the __call__ monitor) gives None."""
+    if not isinstance(f, sc.Variable):
+        return None
+    try:
+        v = np.asarray(f.values, dtype=np.float64)
+    except Exception:  # noqa: BLE001
+        return None
+    return v if v.shape == (n,) else None
+
+
 def check_prefix_bitwise(ctx, results, what, case, kind):
     """results: list of (prefix, Variable | None)."""
     ok = [(p, r) for p, r in results if isinstance(r, sc.Variable)]
@@ -987,7 +1066,7 @@ def check_prefix_bitwise(ctx, results, what, case, kind):
         if bits(r) != bits(ref):
             ctx.violation('prefix_dependence',
                           f'{what} of {kind} differs between prefix {ref_p!r} and prefix {p!r}', case,
-                          model=kind, what=what, prefix_class=prefix_class(p))
+                          model=kind, quantity=what, prefix_class=prefix_class(p))
             return
 
 
@@ -1033,9 +1112,9 @@ def peak_identities(rng, ctx, model, prefix, kind, vals, pv, xunit, case):
     cond = 1.0 + abs(loc) / scale
     # -- normalisation
     xq, wq = pk.tan_nodes(loc, scale, 400)
-    f = safe_call(model, sc.array(dims=['x'], values=xq, unit=xunit), params)
+    f = values_of(safe_call(model, sc.array(dims=['x'], values=xq, unit=xunit), params), len(xq))
     if f is not None:
-        integral = pk.integrate(np.asarray(f.values, dtype=np.float64), xq, wq, loc, scale)
+        integral = pk.integrate(f, xq, wq, loc, scale)
         dev = float(abs(integral - LD(amp)) / abs(LD(amp)))
         ctx.event('normalisation.' + kind)
         ctx.dev('normalisation.' + kind + ' [relative]', dev)
@@ -1048,9 +1127,9 @@ def peak_identities(rng, ctx, model, prefix, kind, vals, pv, xunit, case):
         ctx.count('symmetry_no_exact_pair')
     else:
         xs = np.concatenate([xp, xm])
-        f = safe_call(model, sc.array(dims=['x'], values=xs, unit=xunit), params)
+        f = values_of(safe_call(model, sc.array(dims=['x'], values=xs, unit=xunit), params), len(xs))
         if f is not None:
-            fv = np.asarray(f.values, dtype=np.float64).astype(LD)
+            fv = f.astype(LD)
             fp, fm = fv[: xp.size], fv[xp.size:]
             z = ((xp.astype(LD) - LD(loc)) / LD(scale)) ** 2 / 2 if kind != 'lorentz' else LD(0)
             tol = 2 * LD(pk.K * EPS) * (1 + z) * np.maximum(np.abs(fp), np.abs(fm)) + pk.FLOOR
@@ -1080,9 +1159,9 @@ def halfmax_identity(ctx, model, kind, params, fwhm_params, loc, scale, xunit, c
     if isinstance(w, sc.Variable) and w.ndim == 0 and w.unit == sc.Unit(xunit) and np.isfinite(w.value):
         half = float(w.value) / 2.0
         xs = np.array([loc, loc + half, loc - half], dtype=np.float64)
-        f = safe_call(model, sc.array(dims=['x'], values=xs, unit=xunit), params)
+        f = values_of(safe_call(model, sc.array(dims=['x'], values=xs, unit=xunit), params), len(xs))
         if f is not None:
-            fv = np.asarray(f.values, dtype=np.float64).astype(LD)
+            fv = f.astype(LD)
             want = fv[0] / 2
             dev = np.abs(fv[1:] - want) / np.abs(want)
             units = float(np.max(dev)) / (EPS * cond)
@@ -1097,33 +1176,134 @@ def halfmax_identity(ctx, model, kind, params, fwhm_params, loc, scale, xunit, c
                               f'off by {units:.3g} eps(1+|loc|/scale)', c, model=kind, layer='identity')
 
 
-def check_guess_bounds(rng, ctx, models, y_of, kind, case):
+def bits_full(v):
+    """Everything a returned parameter value consists of (values, variances, unit, dtype, shape); any
+    other kind of object by its repr."""
+    if not isinstance(v, sc.Variable):
+        return ('not a Variable', type(v).__name__, repr(v)[:120])
+    var = None if v.variances is None else np.ascontiguousarray(v.variances).tobytes()
+    return (*bits(v), var)
+
+
+def _names_of(answer):
+    """The names in a dict the package returned; None when the answer is not a dict of strings (whatever
+    the package returns is judged, never trusted to have the expected shape)."""
+    if not isinstance(answer, dict) or not all(isinstance(k, str) for k in answer):
+        return None
+    return set(answer)
+
+
+def judge_guess_names(ctx, spec, answer, case, seen_by):
+    """The dict ``guess`` returned: exactly the documented names of the model (which are what ``__call__``
+    accepts), every value a scalar Variable.  True when it has that shape."""
+    names = spec_names(spec)
+    got = _names_of(answer)
+    kind = spec['kind']
+    ctx.event('guess_names_judged')
+    if got is None:
+        ctx.violation('guess_type', f'{spec_str(spec)}.guess returned {type(answer).__name__}: {answer!r:.200}, '
+                      f'expected a dict of parameter name -> value', case, model=kind, seen_by=seen_by)
+        return False
+    if got != names:
+        missing, extra = names - got, got - names
+        ctx.violation('guess_names', f'{spec_str(spec)}.guess returned names {sorted(got)}, the model accepts '
+                      f'{sorted(names)} (missing {sorted(missing)}, not parameters {sorted(extra)})', case,
+                      model=kind, where='guess', seen_by=seen_by,
+                      own_prefix='empty' if spec['prefix'] == '' else 'non-empty')
+        return False
+    bad = {k: v for k, v in answer.items() if not (isinstance(v, sc.Variable) and v.ndim == 0)}
+    if bad:
+        ctx.violation('guess_type', f'{spec_str(spec)}.guess returned values that are not scalar variables: '
+                      f'{ {k: repr(v)[:60] for k, v in bad.items()} }', case, model=kind, seen_by=seen_by)
+        return False
+    return True
+
+
+def judge_bounds_names(ctx, spec, answer, case, seen_by):
+    """``param_bounds``: a dict whose names are parameters of the model (omitted = unbounded), each value
+    a (lower, upper) pair.  True when it has that shape."""
+    names = spec_names(spec)
+    got = _names_of(answer)
+    kind = spec['kind']
+    ctx.event('bounds_names_judged')
+    if got is None:
+        ctx.violation('bounds_type', f'{spec_str(spec)}.param_bounds is {type(answer).__name__}: {answer!r:.200}, '
+                      f'expected a dict of parameter name -> (lower, upper)', case, model=kind, seen_by=seen_by)
+        return False
+    if not got <= names:
+        ctx.violation('bounds_names', f'{spec_str(spec)}.param_bounds has names {sorted(got - names)} that are '
+                      f'not parameters {sorted(names)}', case, model=kind, where='param_bounds', seen_by=seen_by,
+                      own_prefix='empty' if spec['prefix'] == '' else 'non-empty')
+        return False
+    for k, v in answer.items():
+        try:
+            lo, hi = v
+            ok = float(lo) <= float(hi)
+        except Exception:  # noqa: BLE001  (not a pair of numbers)
+            ok = False
+        if not ok:
+            ctx.violation('bounds_type', f'{spec_str(spec)}.param_bounds[{k!r}] = {v!r:.80} is not a '
+                          f'(lower, upper) pair', case, model=kind, seen_by=seen_by)
+            return False
+    return True
+
+
+def renamed(answer, strip, value_of):
+    """A dict the package returned, keyed by the prefix-free name of every entry (documented naming);
+    names that are not parameters of the model stay visible as '?name'."""
+    return {strip(k): value_of(v) for k, v in answer.items()}
+
+
+def check_guess_bounds(rng, ctx, models, y_of, kind, case, spec_of=None):
     """guess / param_bounds: same content under every prefix, names accepted by __call__.
 
-    models: list of (model, prefix-map function name->name)."""
+    models: list of (model, prefix-map function name->name).  ``spec_of(model)`` gives the spec the model
+    was built from (names judged here as well as by the monitors)."""
     gs, bs = [], []
-    for model, strip in models:
-        try:
-            data = y_of(model)
-            if data is None:
-                return
-            g = model.guess(data)
-        except Exception:  # noqa: BLE001
-            ctx.count('guess_raised')
+    for i, (model, strip) in enumerate(models):
+        spec = spec_of(model) if spec_of is not None else None
+        data = y_of(model)
+        if data is None:
             return
-        gs.append({strip(k): bits(v) if isinstance(v, sc.Variable) else repr(v) for k, v in g.items()})
-        b = model.param_bounds
-        bs.append({strip(k): repr(v) for k, v in b.items()})
+        try:
+            g = model.guess(data)
+        except Exception as e:  # noqa: BLE001
+            if i == 0:
+                ctx.count('guess_raised:' + type(e).__name__)  # nothing to compare with: not judged
+            else:
+                # the same data under another prefix was accepted
+                ctx.violation('prefix_dependence', f'guess of {kind} raised {type(e).__name__}: {e} under one '
+                              f'prefix and returned a result under another', case, model=kind, quantity='guess',
+                              prefix_class='-')
+            return
+        if spec is not None:
+            if not judge_guess_names(ctx, spec, g, case, 'harness'):
+                return
+        elif _names_of(g) is None:
+            return  # judged by the monitor on guess
+        gs.append(renamed(g, strip, bits_full))
+        try:
+            b = model.param_bounds
+        except Exception as e:  # noqa: BLE001
+            ctx.violation('bounds_raised', f'param_bounds of {kind} raised {type(e).__name__}: {e}', case,
+                          model=kind)
+            return
+        if spec is not None:
+            if not judge_bounds_names(ctx, spec, b, case, 'harness'):
+                return
+        elif _names_of(b) is None:
+            return  # judged by the monitor on param_bounds
+        bs.append(renamed(b, strip, repr))
         # round trip: the names guess returns are handed back to __call__ (judged by its monitor)
         safe_call(model, data.coords[data.dim], g)
     ctx.event('prefix_bitwise.guess')
     if any(g != gs[0] for g in gs[1:]):
         ctx.violation('prefix_dependence', f'guess of {kind} differs between prefixes', case, model=kind,
-                      what='guess', prefix_class='-')
+                      quantity='guess', prefix_class='-')
     ctx.event('prefix_bitwise.param_bounds')
     if any(b != bs[0] for b in bs[1:]):
         ctx.violation('prefix_dependence', f'param_bounds of {kind} differs between prefixes', case, model=kind,
-                      what='param_bounds', prefix_class='-')
+                      quantity='param_bounds', prefix_class='-')
 
 
 # --------------------------------------------------------------------- cases ---
@@ -1197,8 +1377,9 @@ def peak_case(rng, ctx, mon, M, kind, conditioned):
         def y_of(model, _m0=m0):
             xs = sc.array(dims=['x'], values=vals['loc'] + vals['scale'] * np.linspace(-6, 6, 41), unit=xunit)
             y = safe_call(_m0, xs, dict(pv))
-            return None if y is None else sc.DataArray(y, coords={'x': xs})
-        check_guess_bounds(rng, ctx, [(mm, (lambda k, _p=pp: k[len(_p):])) for mm, pp in models], y_of, kind, case)
+            return data_of(y, xs)
+        check_guess_bounds(rng, ctx, [(mm, (lambda k, _p=pp: k[len(_p):])) for mm, pp in models], y_of, kind, case,
+                           spec_of=mon.spec_of)
     sig = (kind, 'cond' if conditioned else 'wild', prefix_class(p1), xunit, aunit, xcls,
            scale_band(vals['scale']), vals['amplitude'] > 0, fcls)
     return sig, False, case
@@ -1276,8 +1457,9 @@ def poly_case(rng, ctx, mon, M):
         def y_of(model, _m0=m0):
             xs = sc.array(dims=['x'], values=xmag * np.linspace(-2, 2, 31), unit=xunit)
             y = safe_call(_m0, xs, dict(pv))
-            return None if y is None else sc.DataArray(y, coords={'x': xs})
-        check_guess_bounds(rng, ctx, [(mm, (lambda k, _p=pp: k[len(_p):])) for mm, pp in models], y_of, 'poly', case)
+            return data_of(y, xs)
+        check_guess_bounds(rng, ctx, [(mm, (lambda k, _p=pp: k[len(_p):])) for mm, pp in models], y_of, 'poly', case,
+                           spec_of=mon.spec_of)
     sig = ('poly', degree, prefix_class(p1), xunit, yunit, xcls, int(np.floor(np.log10(xmag))))
     return sig, False, case
 
@@ -1470,8 +1652,9 @@ def composite_case(rng, ctx, mon, M):
                 xs = sc.array(dims=['x'], values=centre + width * np.linspace(-6, 6, 41), unit=xunit)
                 sp = mon.spec_of(model)
                 y = safe_call(model, xs, full_params(sp, leaf_values)) if sp else None
-                return None if y is None else sc.DataArray(y, coords={'x': xs})
-            check_guess_bounds(rng, ctx, [(mm, strip_for(ss)) for mm, ss in models], y_of, 'comp', case)
+                return data_of(y, xs)
+            check_guess_bounds(rng, ctx, [(mm, strip_for(ss)) for mm, ss in models], y_of, 'comp', case,
+                               spec_of=mon.spec_of)
     sig = ('comp', repr(tree), tuple(sorted(set(leaf_kinds))), xunit, yunit, xcls, len(models))
     return sig, False, case
 
@@ -1664,8 +1847,9 @@ def family_case(rng, ctx, mon, M, kind, base):
         xs = sc.array(dims=['x'], values=centre + width * np.linspace(-6, 6, 41), unit=xunit)
         sp = mon.spec_of(model)
         y = safe_call(model, xs, full_params(sp, common)) if sp else None
-        return None if y is None else sc.DataArray(y, coords={'x': xs})
-    check_guess_bounds(rng, ctx, [(m, name_map(sp)) for m, sp, *_ in members], y_of, kind, case)
+        return data_of(y, xs)
+    check_guess_bounds(rng, ctx, [(m, name_map(sp)) for m, sp, *_ in members], y_of, kind, case,
+                       spec_of=mon.spec_of)
 
     # ---- round B: every member has its own values
     own = [full_params(sp, lv) for _, sp, lv, _, _ in members]
@@ -1747,6 +1931,340 @@ def family_case(rng, ctx, mon, M, kind, base):
         ask(i, DK_MIXED, {(nj[u] if take[u] else ni[u]): (own[j][nj[u]] if take[u] else own[i][ni[u]])
                           for u in range(len(ni))}, False)
     sig = ('family', kind, prefix_class(base), min(len(base), 6), xunit, yunit, xcls)
+    return sig, False, case
+
+
+# ------------------------- guess / param_bounds / param_names under every way to carry prefixes ---
+# "Results are independent of the parameter-name prefix" (prefix handling in guess, param_bounds): a prefix
+# can sit on a leaf, on a composite (given to the constructor or attached with with_prefix), on a composite
+# nested in another composite (left or right, the outer one with or without a prefix of its own), and on
+# several of these at once.  For every such structure the estimate is compared with the estimate of the
+# same tree with plain distinct leaf prefixes and no composite prefix (under the documented renaming), for
+# every way the data can name the independent variable: coord not given, the dimension-coordinate by
+# name, another coordinate of the data (other unit, other values), data with variances.
+GC_LEAF = 'guess: leaf with a prefix'
+GC_CTOR = 'guess: composite with its own prefix (constructor)'
+GC_WITH = 'guess: composite with its own prefix (with_prefix)'
+GC_NEST_L = 'guess: prefixed composite nested as the left part'
+GC_NEST_R = 'guess: prefixed composite nested as the right part'
+GC_NEST_BOTH = 'guess: prefixed composite inside a prefixed composite'
+GC_OUTER_ONLY = 'guess: un-prefixed composite inside a prefixed composite'
+GC_LEAVES = 'guess: related leaf prefixes inside a prefixed composite'
+GC_BARE_LEAF = 'guess: un-prefixed leaf inside a prefixed composite'
+GC_REPREFIX = 'guess: prefixed composite given another prefix'
+GC_UNPREFIX = 'guess: prefixed composite given the empty prefix'
+GM_NONE = 'guess: coord not given'
+GM_DIM = 'guess: coord = the dimension-coordinate by name'
+GM_OTHER = 'guess: coord = another coordinate of the data'
+GM_VAR = 'guess: data with variances'
+GUESS_CLASSES = [GC_LEAF, GC_CTOR, GC_WITH, GC_NEST_L, GC_NEST_R, GC_NEST_BOTH, GC_OUTER_ONLY, GC_LEAVES,
+                 GC_BARE_LEAF, GC_REPREFIX, GC_UNPREFIX, GM_NONE, GM_DIM, GM_OTHER, GM_VAR]
+
+GUESS_SHAPES = {'pair': ('c', 0, 1), 'nested left': ('c', ('c', 0, 1), 2), 'nested right': ('c', 0, ('c', 1, 2))}
+CANONICAL_LEAF_PREFIXES = ['b_', 'g_', 'h_']
+
+
+def shape_spec(shape, leaves, comp_prefixes):
+    """Spec of a tree shape (leaf indices at the tips); composite prefixes are consumed outermost first."""
+    comp_prefixes = list(comp_prefixes)
+
+    def walk(t):
+        if isinstance(t, int):
+            return dict(leaves[t])
+        p = comp_prefixes.pop(0)
+        return {'kind': 'comp', 'prefix': p, 'left': walk(t[1]), 'right': walk(t[2])}
+    return walk(shape)
+
+
+def full_names(spec, acc=''):
+    pre = acc + spec['prefix']
+    if spec['kind'] == 'comp':
+        return full_names(spec['left'], pre) + full_names(spec['right'], pre)
+    return [pre + b for b in base_names(spec)]
+
+
+def names_disjoint(spec):
+    """No two parameters of the tree share a name, at any level (such trees are refused by the constructor:
+    the documentation asks the caller to disambiguate)."""
+    if spec['kind'] != 'comp':
+        return True
+    ln, rn = spec_names(spec['left']), spec_names(spec['right'])
+    return not (ln & rn) and names_disjoint(spec['left']) and names_disjoint(spec['right'])
+
+
+def build_prefixed(M, spec, how):
+    """The model of a spec; every non-empty prefix is given to the constructor (how='constructor') or
+    attached afterwards with with_prefix (how='with_prefix'); un-prefixed composites are made with +."""
+    p = spec['prefix']
+    if spec['kind'] != 'comp':
+        if p == '' or how == 'constructor':
+            return build_leaf(M, spec)
+        return history_probe(build_leaf(M, {**spec, 'prefix': ''}).with_prefix(p))
+    left, right = build_prefixed(M, spec['left'], how), build_prefixed(M, spec['right'], how)
+    if p == '':
+        return history_probe(left + right)
+    if how == 'constructor':
+        return history_probe(M.CompositeModel(left, right, prefix=p))
+    return history_probe((left + right).with_prefix(p))
+
+
+def guess_data(rng, xunit, tunit, yunit, dim, tname):
+    """Data with a peak on a sloping background (own numbers), irregular abscissae; three coordinates: the
+    dimension-coordinate, another parametrisation of the axis in another unit, and a decoy."""
+    n = int(rng.integers(30, 60))
+    u = np.sort(rng.uniform(-6, 6, size=n))
+    centre = logu(rng, -2, 3) * (1.0 if rng.random() < 0.5 else -1.0)
+    width = logu(rng, -2, 2)
+    c2 = logu(rng, -2, 3) * (1.0 if rng.random() < 0.5 else -1.0)
+    w2 = logu(rng, -2, 2) * (1.0 if rng.random() < 0.7 else -1.0)
+    xs = centre + width * u
+    ts = c2 + w2 * (u + 0.04 * u * u)
+    ymag = logu(rng, -2, 3)
+    sign = 1.0 if rng.random() < 0.7 else -1.0
+    yv = ymag * (0.3 + 0.05 * u + sign * 2.0 * np.exp(-0.5 * ((u - 0.7) / 0.8) ** 2) + 0.01 * rng.normal(size=n))
+    data = sc.DataArray(sc.array(dims=[dim], values=yv, unit=yunit),
+                        coords={dim: sc.array(dims=[dim], values=xs, unit=xunit),
+                                tname: sc.array(dims=[dim], values=ts, unit=tunit),
+                                'decoy': sc.array(dims=[dim], values=rng.uniform(1, 2, size=n), unit='K')})
+    with_var = data.copy()
+    with_var.variances = (0.05 * ymag) ** 2 * (1.0 + rng.uniform(size=n))
+    rekeyed = sc.DataArray(data.data, coords={dim: data.coords[tname]})
+    return data, with_var, rekeyed
+
+
+def ask_guess(model, data, coord, explicit):
+    """('ok', answer) / ('raised', exception)."""
+    try:
+        return 'ok', (model.guess(data, coord=coord) if explicit else model.guess(data))
+    except Exception as e:  # noqa: BLE001
+        return 'raised', e
+
+
+def judge_guess_model(ctx, model, spec, structure, modes, rekeyed, ref, case):
+    """One model against the reference answers ``ref`` (None for the reference itself, which is judged for
+    names / coordinates / round trip and fills the dict it returns).
+
+    Returns {mode label: renamed answer | None, 'bounds': renamed bounds | None}."""
+    kind = 'comp' if spec['kind'] == 'comp' else spec['kind']
+    strip = name_map(spec)
+    names = spec_names(spec)
+    c0 = dict(case)
+    c0['model'] = spec_str(spec)
+    c0['structure'] = structure
+    out = {}
+    shaped = {}
+    for label, data, coord, explicit, xname in modes:
+        c = dict(c0)
+        c['mode'] = label
+        status, g = ask_guess(model, data, coord, explicit)
+        out[label] = None
+        if status == 'raised':
+            if ref is None or ref.get(label) is None:
+                ctx.count('guess_raised:' + type(g).__name__)  # nothing it could be compared with
+            else:
+                ctx.violation('prefix_dependence',
+                              f'guess of {spec_str(spec)} raised {type(g).__name__}: {g} for data the same tree '
+                              f'with plain prefixes gave an estimate for ({label})', c, model=kind,
+                              quantity='guess', prefix_class='-')
+            continue
+        if not judge_guess_names(ctx, spec, g, c, 'harness'):
+            continue
+        shaped[label] = g
+        out[label] = renamed(g, strip, bits_full)
+        if ref is not None and ref.get(label) is not None:
+            ctx.event('prefix_bitwise.guess')
+            ctx.event('guess_values_judged: ' + structure)
+            if out[label] != ref[label]:
+                diff = sorted(k for k in out[label] if out[label][k] != ref[label].get(k))
+                ctx.violation('prefix_dependence',
+                              f'guess of {spec_str(spec)} differs from the guess of the same tree with plain '
+                              f'prefixes in {diff} ({label})', c, model=kind, quantity='guess', prefix_class='-')
+        # round trip: what guess returns is what __call__ takes (values judged by the __call__ monitor).  Not
+        # for data with variances: the estimate then carries variances, and scipp refuses to broadcast a scalar
+        # with variances over x -- parameters with variances are outside the property's quantifier
+        if data.variances is not None:
+            continue
+        xcoord = data.coords[xname]
+        try:
+            r = model(xcoord, **g)
+        except Exception as e:  # noqa: BLE001
+            ctx.violation('guess_not_accepted',
+                          f'{spec_str(spec)}(x, **guess(data)) raised {type(e).__name__}: {e} ({label})', c,
+                          model=kind, exc=type(e).__name__)
+            continue
+        ctx.event('guess_roundtrip')
+        if (not isinstance(r, sc.Variable) or r.unit != data.unit or tuple(r.dims) != tuple(xcoord.dims)
+                or tuple(r.shape) != tuple(xcoord.shape)):
+            got = f'{r.dims}{r.shape} in {r.unit}' if isinstance(r, sc.Variable) else type(r).__name__
+            ctx.violation('guess_roundtrip_unit',
+                          f'{spec_str(spec)}(x, **guess(data)) is {got}; the data are '
+                          f'{data.dims}{data.shape} in {data.unit} ({label})', c, model=kind)
+    # the coordinate the estimate is made from
+    if GM_NONE in shaped and GM_DIM in shaped:
+        ctx.event('guess_coord_judged')
+        if out[GM_NONE] != out[GM_DIM]:
+            ctx.violation('guess_coord', f'guess of {spec_str(spec)} differs between coord not given and coord = '
+                          f'the name of the dimension-coordinate', c0, model=kind, relation='default')
+    if GM_OTHER in shaped:
+        status, g = ask_guess(model, rekeyed, None, False)
+        if status == 'ok' and _names_of(g) == names:
+            ctx.event('guess_coord_judged')
+            if renamed(g, strip, bits_full) != out[GM_OTHER]:
+                ctx.violation('guess_coord', f'guess of {spec_str(spec)} with coord = another coordinate differs '
+                              f'from the guess for the same numbers given as the dimension-coordinate', c0,
+                              model=kind, relation='named')
+    # bounds and names
+    out['bounds'] = None
+    try:
+        b = model.param_bounds
+    except Exception as e:  # noqa: BLE001
+        ctx.violation('bounds_raised', f'param_bounds of {spec_str(spec)} raised {type(e).__name__}: {e}', c0,
+                      model=kind)
+        b = None
+    if b is not None and judge_bounds_names(ctx, spec, b, c0, 'harness'):
+        out['bounds'] = renamed(b, strip, repr)
+        if ref is not None and ref.get('bounds') is not None:
+            ctx.event('prefix_bitwise.param_bounds')
+            if out['bounds'] != ref['bounds']:
+                ctx.violation('prefix_dependence',
+                              f'param_bounds of {spec_str(spec)}: {out["bounds"]}, of the same tree with plain '
+                              f'prefixes: {ref["bounds"]}', c0, model=kind, quantity='param_bounds',
+                              prefix_class='-')
+    try:
+        pn = model.param_names
+    except Exception as e:  # noqa: BLE001
+        pn = e
+    ctx.event('param_names_judged')
+    if not isinstance(pn, set | frozenset) or set(pn) != names:
+        ctx.violation('param_names', f'{spec_str(spec)}.param_names = {pn!r:.300}, documented naming gives '
+                      f'{sorted(names)}', c0, model=kind)
+    return out
+
+
+def guess_case(rng, ctx, mon, M):
+    """guess / param_bounds / param_names of every structure that carries prefixes x every way to name the
+    independent variable: a deterministic part of every shard."""
+    xunit = pick(rng, X_UNITS)
+    tunit = pick(rng, [u for u in X_UNITS if u != xunit])
+    yunit = pick(rng, A_UNITS)
+    dim = pick(rng, DIMS)
+    tname = pick(rng, [n for n in ('t', 'tof', 'x', 'λ', 'other coord') if n != dim])
+    data, with_var, rekeyed = guess_data(rng, xunit, tunit, yunit, dim, tname)
+    modes = [(GM_NONE, data, None, False, dim), (GM_DIM, data, dim, True, dim),
+             (GM_OTHER, data, tname, True, tname), (GM_VAR, with_var, None, False, dim)]
+    for m_ in modes:
+        ctx.hit(m_[0])
+    kinds = [pick(rng, ['poly', 'poly', *PEAKS]), pick(rng, PEAKS), pick(rng, ['poly', *PEAKS])]
+    leaves = []
+    for k in kinds:
+        leaf = {'kind': k}
+        if k == 'poly':
+            leaf['degree'] = int(rng.integers(1, 5))
+        leaves.append(leaf)
+    case = {'kind': 'guess', 'leaf_kinds': kinds, 'x_unit': xunit, 'other_coord': [tname, tunit], 'y_unit': yunit,
+            'dim': dim, 'n': int(data.sizes[dim]),
+            'x_hex': [_hex(v) for v in data.coords[dim].values[:4]], 'y_hex': [_hex(v) for v in data.values[:4]]}
+
+    def with_leaf_prefixes(ps):
+        return [{**leaf, 'prefix': p} for leaf, p in zip(leaves, ps, strict=False)]
+
+    def build(spec, how):
+        try:
+            m = build_prefixed(M, spec, how)
+        except Exception as e:  # noqa: BLE001  (constructors / with_prefix are judged by their monitors)
+            ctx.count('guess_model_not_built:' + type(e).__name__)
+            return None
+        if mon.spec_of(m) != spec:
+            got = mon.spec_of(m)
+            ctx.inconclusive_because('harness: observed model structure differs from the plan: '
+                                     f'{spec_str(got) if got else got} vs {spec_str(spec)}')
+            return None
+        return m
+
+    def drawn_prefixes(n_wanted, test):
+        """n_wanted prefixes of the drawn classes for which ``test(prefixes)`` holds (names disjoint)."""
+        for _ in range(30):
+            pair = list(pick(rng, NESTED_PAIRS))
+            pool = [*pair, draw_prefix(rng, ctx, avoid=pair), draw_prefix(rng, ctx, avoid=pair)]
+            rng.shuffle(pool)
+            ps = pool[:n_wanted]
+            if len(set(ps)) == len(ps) and test(ps):
+                return ps
+        return None
+
+    # ---- leaves: '' against a prefix given to the constructor / attached afterwards
+    for leaf in leaves[:2]:
+        ref_spec = {**leaf, 'prefix': ''}
+        ref_model = build(ref_spec, 'constructor')
+        if ref_model is None:
+            continue
+        ref = judge_guess_model(ctx, ref_model, ref_spec, 'leaf, no prefix', modes, rekeyed, None, case)
+        for how in ('constructor', 'with_prefix'):
+            spec = {**leaf, 'prefix': draw_prefix(rng, ctx, avoid=('',))}
+            m = build(spec, how)
+            if m is not None:
+                ctx.hit(GC_LEAF)
+                judge_guess_model(ctx, m, spec, GC_LEAF, modes, rekeyed, ref, case)
+
+    # ---- composites
+    for shape_name, shape in GUESS_SHAPES.items():
+        nl, nc = (2, 1) if shape_name == 'pair' else (3, 2)
+        canon = with_leaf_prefixes(CANONICAL_LEAF_PREFIXES[:nl])
+        ref_spec = shape_spec(shape, canon, [''] * nc)
+        ref_model = build(ref_spec, 'constructor')
+        if ref_model is None:
+            continue
+        ref = judge_guess_model(ctx, ref_model, ref_spec, 'composite, plain leaf prefixes', modes, rekeyed, None,
+                                case)
+        outer, inner = draw_prefix(rng, ctx, avoid=('',)), draw_prefix(rng, ctx, avoid=('',))
+        if nc == 1:
+            comp_sets = [((outer,), None)]
+        else:
+            nest = GC_NEST_L if shape_name == 'nested left' else GC_NEST_R
+            comp_sets = [(('', inner), nest), ((outer, inner), GC_NEST_BOTH), ((outer, ''), GC_OUTER_ONLY)]
+        for j, (comp_prefixes, nest_label) in enumerate(comp_sets):
+            def ok(ps, _cp=comp_prefixes):
+                return names_disjoint(shape_spec(shape, with_leaf_prefixes(ps), _cp))
+            related = drawn_prefixes(nl, ok)
+            bare = drawn_prefixes(nl - 1, lambda ps, _ok=ok: _ok(['', *ps]))  # leaf 0 without a prefix
+            leaf_sets = [(CANONICAL_LEAF_PREFIXES[:nl], None)]
+            if related is not None:
+                leaf_sets.append((related, GC_LEAVES))
+            if bare is not None:
+                leaf_sets.append((['', *bare], GC_BARE_LEAF))
+            for k, (leaf_prefixes, leaf_label) in enumerate(leaf_sets):
+                spec = shape_spec(shape, with_leaf_prefixes(leaf_prefixes), comp_prefixes)
+                if not names_disjoint(spec):
+                    continue
+                # plain leaves: both ways to attach the prefixes; the other leaf sets alternate
+                hows = ('constructor', 'with_prefix') if k == 0 else (('constructor', 'with_prefix')[(k + j) % 2],)
+                for how in hows:
+                    m = build(spec, how)
+                    if m is None:
+                        continue
+                    labels = [nest_label or (GC_CTOR if how == 'constructor' else GC_WITH)]
+                    if comp_prefixes[0] != '':
+                        labels.append(GC_CTOR if how == 'constructor' else GC_WITH)
+                    if leaf_label:
+                        labels.append(leaf_label)
+                    for lab in dict.fromkeys(labels):
+                        ctx.hit(lab)
+                    judge_guess_model(ctx, m, spec, labels[0], modes, rekeyed, ref, case)
+                    if k == 0 and how == 'constructor' and comp_prefixes[0] != '':
+                        # the prefixed composite given another prefix / the empty prefix again
+                        for p, lab in ((draw_prefix(rng, ctx, avoid=('', comp_prefixes[0])), GC_REPREFIX),
+                                       ('', GC_UNPREFIX)):
+                            try:
+                                m2 = m.with_prefix(p)
+                            except Exception:  # noqa: BLE001  (judged by the with_prefix monitor)
+                                continue
+                            s2 = {**spec, 'prefix': p}
+                            if mon.spec_of(m2) != s2:
+                                ctx.count('guess_model_not_registered')
+                                continue
+                            ctx.hit(lab)
+                            judge_guess_model(ctx, m2, s2, lab, modes, rekeyed, ref, case)
+    sig = ('guess', tuple(kinds), xunit, tunit, yunit, dim)
     return sig, False, case
 
 
@@ -2099,7 +2617,7 @@ def in_situ_fit(rng, ctx, mon, M):
 # -------------------------------------------------------------------- driver ---
 def plan(tier, seed):
     n_shards = 16
-    sets = 130 if tier == 'quick' else 6250
+    sets = 131 if tier == 'quick' else 6250
     fits = 1 if tier == 'quick' else 12
     return [{'sets': sets, 'fits': fits} for _ in range(n_shards)]
 
@@ -2120,7 +2638,11 @@ def requirements(tier):
     forced = ['fraction:0', 'fraction:1', 'fraction:mid', 'prefix:empty', 'prefix:unicode', 'prefix:leading',
               'prefix:nested pair', 'scalar x', '|loc| > 1e6 scale', 'amplitude < 0', 'x == loc',
               'gaussian tail 10..38 sigma', 'polynomial near a root'] + [f'degree {d}' for d in range(1, 7)]
-    forced += UNIT_CLASSES_POLY + UNIT_CLASSES_PEAK + UNIT_CLASSES_COMP
+    forced += UNIT_CLASSES_POLY + UNIT_CLASSES_PEAK + UNIT_CLASSES_COMP + GUESS_CLASSES
+    ev.update({'guess_names_judged': 100, 'bounds_names_judged': 100, 'param_names_judged': 100,
+               'guess_roundtrip': 100, 'guess_coord_judged': 100, 'guess.coord=None': 20, 'guess.coord=name': 20})
+    for c in (GC_CTOR, GC_WITH, GC_NEST_L, GC_NEST_R, GC_NEST_BOTH, GC_OUTER_ONLY, GC_REPREFIX, GC_UNPREFIX, GC_LEAF):
+        ev['guess_values_judged: ' + c] = 8
     return {'events': ev, 'forced': forced, 'counters': {'fit_peaks_runs': 1, 'symmetry_pairs': 100}}
 
 
@@ -2149,7 +2671,7 @@ def run(shard, ctx):
             r = rng.random()
             # every kind first (incl. one family of related prefixes per model kind, with a base prefix for
             # which every relation exists: a deterministic part of every shard), then the mixture
-            pick = i if i < 18 else None
+            pick = i if i < 19 else None
             fam_kinds = (*PEAKS, 'poly', 'comp')
             mon.dict_kind = None
             try:
@@ -2173,6 +2695,10 @@ def run(shard, ctx):
                     sig, trivial, case = poly_unit_case(rng, ctx, mon, M)
                 elif pick == 17 or (pick is None and r >= 0.97):
                     sig, trivial, case = comp_unit_case(rng, ctx, mon, M)
+                elif pick == 18 or (pick is None and r >= 0.965):
+                    # guess / param_bounds / param_names of every structure that carries prefixes x every way to
+                    # name the independent variable: a deterministic part of every shard
+                    sig, trivial, case = guess_case(rng, ctx, mon, M)
                 elif pick is None and r < 0.94:
                     sig, trivial, case = composite_case(rng, ctx, mon, M)
                 else:
